@@ -110,7 +110,7 @@ CLAIM = dict(
           "[7 configuration] per chip: system variables, struct layout, version string / buffer size in sver, core "
           "states, links; per case: SCP buffer 64-512, n_tries 1-5, timeout, root chip; window size is fixed at 1 by the "
           "code (no public way to change it). [8 non-termination] every implementation call runs under "
-          "common.cpu_limit (2 s per probe, 6 s per derivation bundle, quartered after 3 hangs) and a datagram budget; a "
+          "common.cpu_limit (10 s per probe, 30 s per derivation bundle, quartered - never below 2 s - after 3 hangs; the largest CPU time of one call is in the evidence: max_impl_call_cpu_s) and a datagram budget; a "
           "call that does not return is `did-not-return` (the Lean models are total). "
           "WHICH CORES ANSWER - an ASSUMPTION of the machine specification, taken from the SARK / SC&MP documentation of "
           "the application states (consts.AppState), not something rig's code states: in the specification (Lean "
@@ -283,6 +283,8 @@ class Budget(object):
 
 
 _HANGS = [0]
+_CTX = [None]
+_MAX_CPU = [0.0]          # largest CPU time of one limited call of the implementation (goes to the evidence)
 RIG_STATEFUL = ["rig.machine_control.machine_controller", "rig.machine_control.common", "rig.place_and_route.utils",
                 "rig.place_and_route.machine", "rig.routing_table.utils"]
 
@@ -290,12 +292,24 @@ RIG_STATEFUL = ["rig.machine_control.machine_controller", "rig.machine_control.c
 def limited(fn, seconds=2):
     """fn() within a CPU-time limit ~100x what a call on these machines takes (milliseconds); after three hangs
     the limit drops so a broken tree does not make the run long"""
+    # budgets: 5x the nominal value (a probe of the largest thorough-tier machine uses a few tenths of a second of CPU
+    # on an idle machine, but CPU time per call grows 2-4x when all cores are busy - a 2 s budget, quartered after
+    # three hangs, once reported `did-not-return` on the unchanged tree under a load average of 25); never below 2 s
+    import time
+    budget = 5.0 * seconds
+    if _HANGS[0] >= 3:
+        budget = max(2.0, budget / (4.0 if _HANGS[0] < 10 else 10.0))
+    t0 = time.process_time()
     try:
-        with common.cpu_limit(seconds if _HANGS[0] < 3 else seconds / (4.0 if _HANGS[0] < 10 else 10.0)):
+        with common.cpu_limit(budget):
             return fn()
     except common.ImplHang:
         _HANGS[0] += 1
         raise
+    finally:
+        _MAX_CPU[0] = max(_MAX_CPU[0], time.process_time() - t0)
+        if _CTX[0] is not None:
+            _CTX[0].extra["max_impl_call_cpu_s"] = round(_MAX_CPU[0], 3)
 
 
 def fresh_rig():
@@ -2394,6 +2408,7 @@ def gen_cases(ctx, n_sys, n_big, n_direct, n_chip, n_core, n_sver, n_session=0, 
 
 def run(ctx):
     _TAINTED[0] = None
+    _CTX[0] = ctx
     ctx.extra["rule"] = RULE
     ctx.assumptions += [
         "machine specification (Lean): info word layout, P2P packing (8 entries of 3 bits per word, 32 words per column), "
